@@ -73,6 +73,9 @@ class Ctx:
         self.max_witnesses = cfg.get("max_witnesses", 400 if tier == "thorough" else 12)
         self.replay_in_process = generic_in_process
         self.t0 = time.time()
+        self.max_violations = int(cfg.get("max_violations", 2))
+        budget = cfg.get("time_budget", 900 if tier == "quick" else 7200)
+        self.E.deadline = self.t0 + budget
 
     def _reset(self):
         self.E.apps = []
@@ -208,6 +211,8 @@ class Ctx:
         if verdict == "violation":
             path = self._save(desc, "cex")
             self.res["violations"].append(dict(what=what, replay=path, detail=detail, vars=desc.get("vars")))
+            if len(self.res["violations"]) >= self.max_violations:
+                self.E.stop = True
         elif verdict == "ok":
             path = self._save(desc, "nonrepro")
             self.res["errors"].append(f"{what}: solver counterexample does not reproduce on the real code "
@@ -307,6 +312,8 @@ class Ctx:
                 self.res["violations"].append(dict(what="real code differs from the oracle on a solver-generated "
                                                         "witness image", replay=path, detail=detail2,
                                                    vars=desc.get("vars")))
+                if len(self.res["violations"]) >= self.max_violations:
+                    self.E.stop = True
             else:
                 self.res["witness_failures"].append(f"in-process {detail} / subprocess {verdict2} {detail2}")
         elif "replay too large" in detail:
